@@ -94,8 +94,14 @@ def generate(ck):
                     "u": [float(v) for v in rng.random(3)],
                     "scale_pow": int(rng.integers(-6, 7)),
                     "as": str(rng.choice(["df", "dict"])),
+                    "mobile_water": bool(rng.random() < 0.4),
+                    "all_columns": bool(rng.random() < 0.5),
                 }
             )
+    for d in descs:
+        if d["kind"] == "table" and d.get("mobile_water"):
+            d["Sw"] = float(max(d["Sw"], 0.2))
+            d["table"] = dict(d["table"], Sw=d["Sw"])
     return descs
 
 
@@ -180,12 +186,26 @@ def run_case(ck, desc):
     cols = {k: np.asarray(tab[k], dtype=float) for k in tables.MP_COLS}
     Sw = desc["Sw"]
     params = RelPermParams(*desc["relperm"])
-    df_kr = relative_permeabilities_twophase(params, Sw)
+    df_kr = None if desc.get("mobile_water") else relative_permeabilities_twophase(params, Sw)
+    if desc.get("mobile_water"):
+        # a rel-perm table with MOBILE water (Sw above its residual), built from the library's own
+        # Brooks-Corey function: the water term of the documented mobility is then non-zero
+        from bluebonnet.flow import relative_permeabilities
+
+        so = np.linspace(0, 1 - Sw, 50)
+        rec = np.zeros(50, dtype=[("So", "f8"), ("Sw", "f8"), ("Sg", "f8")])
+        rec["So"], rec["Sw"], rec["Sg"] = so, Sw, 1 - Sw - so
+        p9 = list(desc["relperm"])
+        p9[4] = max(0.0, Sw - 0.12)  # S_wc below the actual water saturation
+        kr = relative_permeabilities(rec, RelPermParams(*p9))
+        df_kr = pd.DataFrame({"So": so, "Sw": np.full(50, Sw), "Sg": 1 - Sw - so, "kro": kr["kro"], "krw": kr["krw"], "krg": kr["krg"]})
     u = desc["u"]
     ki = max(2, int(u[0] * (len(P) - 1)))
     p_i = float(P[ki])
     refd = dict(zip(names, dens))
     arg = pd.DataFrame(cols) if desc["as"] == "df" else dict(cols)
+    if desc.get("all_columns") and isinstance(tab, pd.DataFrame):
+        arg = tab.copy()  # the shipped merge as it is, with its extra columns (Rsw, densities, ...)
     snap = instrument.snapshot(arg)
     with warnings.catch_warnings(), np.errstate(all="ignore"):
         warnings.simplefilter("ignore")
